@@ -266,7 +266,7 @@ def run(res):
     exe = build.fastpasta("rel" if quick else "ship")
     run_corpus(res, exe, wd, 6000 if quick else 150000, "release")
     if not quick:
-        import c04_sanitizers
+        from props import c04_sanitizers
         c04_sanitizers.run(res, wd)
     res.rule = ("random bytes (0..70000), structure-aware (RDH fields, words, packets, padding) and byte-level (flips, extreme values, splices, size fields) mutants of generated streams "
                 "and of the 18 shipped files, directed inputs for each known input-reachable panic site x 9 modes x options (filters, -m, -e, -E, -w, -c, -p, -S, -d) x {file, pipe}; "
